@@ -73,10 +73,28 @@ def run(ctx):
     for dst in LOGICS:
         for i in range(0, len(junk), 500):
             cases.append((dst, junk[i:i + 500], False))
+    # a character outside the documented alphabet put INTO valid text (inside or next to an atom, between tokens):
+    # contract + "not accepted" (compare=None: decided by the alphabet alone, independent of how text is split)
+    ALIEN = ['\u00e9', '\u0663', '\u00b2', '\u00df', '\u03a9', '\u00f1', '\u00fc', '\u00a0', '\x0b', '\u2028', '$', '#', '=', '.', ',', '%', '@', '!', '?',
+             '[', ']', '{', '}', ';', ':', '<', '>', '-', '+', '*', '/', '\\', "'", '^', '`', '\u4e2d', '\u0416', '\u00aa', '\u2160']
+    for dst in LOGICS:
+        alien = []
+        for s_ in valid[dst]:
+            for _ in range(2 if not thorough else 10):
+                i = rng.randint(0, len(s_))
+                if rng.random() < 0.6:
+                    # right after a letter (so that a widened identifier pattern would swallow it)
+                    letters = [j + 1 for j, ch in enumerate(s_) if ch.isalnum() or ch == '_']
+                    if letters:
+                        i = rng.choice(letters)
+                alien.append(s_[:i] + rng.choice(ALIEN) + s_[i:])
+        for i in range(0, len(alien), 400):
+            cases.append((dst, alien[i:i + 400], None))
     driver.run_cases(
         ctx, 'parse-contract', 'vf.rtc.lang_rtc', 'check_parse_case', cases, chunk=1,
         rule='valid formulas of every logic (independent printer) fed to all four parsers (cross-feeding), %d token-level mutations each '
-             '(delete/insert/swap/replace), random token sequences of length 1-8, and strings with junk characters / keyword-like atoms; '
+             '(delete/insert/swap/replace), random token sequences of length 1-8, strings with junk characters / keyword-like atoms, and valid '
+             'text with one character outside the documented alphabet (non-ASCII letters and digits, other blanks, punctuation) inserted, mostly right after a letter; '
              'contract: a formula of exactly this logic (classes and documented grammar) or the package ParserError with in-range position; '
              'acceptance and tree compared with the fixed transcription of the documented grammar (vf/spec/docgrammar.py); '
              'non-trivial = accepted strings (and documented-but-rejected ones); distinct by (logic, string)' % nmut)
